@@ -107,17 +107,229 @@ Qed.
 
 Definition entries_toks (its : list item) : list tok := flat_map (fun it => toks_of (w_item it)) its.
 
+Lemma item_head : forall it, wf_item it ->
+  exists kwd T, toks_of (w_item it) = (KKeyword, kwd) :: T /\ section_kw kwd = true.
+Proof.
+  intros it Hwf. destruct it; cbn [wf_item] in Hwf; try contradiction; cbn [w_item].
+  all: match goal with |- context [toks_of (?w ?a ?b ?x)] => unfold w | |- context [toks_of (?w ?a ?x)] => unfold w | |- context [toks_of (?w ?x)] => unfold w end.
+  all: tk; do 2 eexists; split; [reflexivity|reflexivity].
+Qed.
+
 Lemma entries_rest_ok : forall its, Forall wf_item its -> rest_ok (entries_toks its ++ [eof_tok]).
 Proof.
   intros [|it its] H; [left; reflexivity|]. inversion H as [|it' its' Hit Hits]; subst.
-  unfold entries_toks. cbn [flat_map]. rewrite <- app_assoc.
-  destruct (item_step it (flat_map (fun it0 => toks_of (w_item it0)) its ++ [eof_tok]) {| fl_ver := true; fl_ns := true; fl_bu := true |} Hit)
-    as [kwd [T [k [HT [Hk [Hs _]]]]]].
-  - (* the rest condition of the first entry is not needed to know how its own tokens start *)
-    clear. induction its as [|a l _]; [left; reflexivity|].
-    (* any list is fine here: use a weaker route *)
-    admit_placeholder.
-  - rewrite HT. right. split; [reflexivity|exact Hs].
+  unfold entries_toks. cbn [flat_map]. destruct (item_head it Hit) as [kwd [T [HT Hs]]]. rewrite HT.
+  cbn [app rest_ok fst snd]. right. split; [reflexivity|exact Hs].
+Qed.
+
+(* the loop over the entries *)
+Lemma entries_loop : forall its fuel fl, Forall wf_item its -> (length its < fuel)%nat ->
+  parse_loop prs hex fuel fl (entries_toks its ++ [eof_tok]) = ROk (map norm_item its).
+Proof.
+  induction its as [|it its IH]; intros fuel fl Hwf Hf.
+  - destruct fuel; [lia|]. reflexivity.
+  - inversion Hwf as [|it' its' Hit Hits]; subst. destruct fuel as [|fuel]; [lia|].
+    unfold entries_toks. cbn [flat_map]. rewrite <- app_assoc. fold (entries_toks its).
+    destruct (item_step it (entries_toks its ++ [eof_tok]) fl Hit (entries_rest_ok its Hits)) as [kwd [T [k [HT [Hk [Hs HP]]]]]].
+    unfold tok, str in *. rewrite HT. cbn [parse_loop next fst snd]. rewrite Hk, HP.
+    rewrite (IH fuel fl Hits); [reflexivity|cbn in Hf; lia].
+Qed.
+
+
+(* ---- the header ---- *)
+Lemma str_eqb_eq : forall a b, str_eqb a b = true -> a = b.
+Proof.
+  induction a as [|x a IH]; intros [|y b] H; cbn in H; try discriminate; [reflexivity|].
+  apply andb_true_iff in H. destruct H as [H1 H2]. apply N.eqb_eq in H1. subst. f_equal. apply IH; exact H2.
+Qed.
+
+Definition word_tok (s : str) : tok := (match s with c :: r => classify_text no_ud c r | [] => KIdent end, s).
+
+Definition ns_sym_ok (s : str) : bool :=
+  let t := word_tok s in
+  negb (kind_is KEOF t) && negb (is_kw KwBitTiming t) && (kind_is KKeyword t || kind_is KIdent t)
+  && mem_str s new_symbols_values.
+
+Lemma ns_table_ok : forallb ns_sym_ok new_symbols_values = true.
+Proof. vm_compute. reflexivity. Qed.
+
+Lemma ns_sym_ok_mem : forall s, mem_str s new_symbols_values = true -> ns_sym_ok s = true.
+Proof.
+  intros s H. unfold mem_str in H. apply existsb_exists in H. destruct H as [x [Hin Hx]].
+  apply str_eqb_eq in Hx. subst x. pose proof ns_table_ok as HT. rewrite forallb_forall in HT. apply HT; exact Hin.
+Qed.
+
+Definition wf_ns (l : list str) : Prop := Forall (fun s => mem_str s new_symbols_values = true) l.
+
+Lemma ns_loop_ok : forall l rest, wf_ns l ->
+  ns_loop (toks_of (flat_map (fun s => [Sp [ch_tab]; word s; nl]) l) ++ (KKeyword, kw_BS) :: rest)
+  = POk l ((KKeyword, kw_BS) :: rest).
+Proof.
+  induction l as [|s l IH]; intros rest Hwf.
+  - reflexivity.
+  - inversion Hwf as [|s' l' Hs Hl]; subst. cbn [flat_map]. rewrite toks_of_app, <- app_assoc.
+    change (toks_of [Sp [ch_tab]; word s; nl]) with [word_tok s]. cbn [app ns_loop].
+    pose proof (ns_sym_ok_mem s Hs) as Hok. unfold ns_sym_ok in Hok. cbv zeta in Hok.
+    repeat (apply andb_true_iff in Hok; destruct Hok as [Hok ?]).
+    apply negb_true_iff in Hok. rewrite Hok.
+    match goal with H : negb (is_kw KwBitTiming _) = true |- _ => apply negb_true_iff in H; rewrite H end.
+    match goal with H : (kind_is KKeyword _ || kind_is KIdent _) = true |- _ => rewrite H end.
+    match goal with H : mem_str _ _ = true |- _ => cbn [snd word_tok]; rewrite H end.
+    rewrite (IH rest Hl). reflexivity.
+Qed.
+
+Definition ver_of (f : file) : str := match f_version f with [] => underscore | v => v end.
+Definition ns_of (f : file) : list str := match f_ns f with Some l => l | None => new_symbols_values end.
+Definition bs_of (f : file) : bit_timing :=
+  match f_bs f with Some b => b | None => {| bt_baud := 0; bt_reg1 := 0; bt_reg2 := 0 |} end.
+Definition bu_of (f : file) : list str := match f_bu f with Some l => l | None => [] end.
+
+Definition wf_bs (b : bit_timing) : Prop := u32_ok (bt_baud b) /\ u32_ok (bt_reg1 b) /\ u32_ok (bt_reg2 b).
+
+Lemma p_uint_other_ok : forall n r b, u32_ok n -> p_uint_other ((KNumber, format_uint n) :: r) b = POk n r.
+Proof. intros n r b H. unfold p_uint_other, next. change (kind_is KNumber (KNumber, format_uint n)) with true. cbv iota. cbn [snd]. rewrite (parse_uint_format n H). reflexivity. Qed.
+
+Lemma parse_bit_timing_ok : forall b rest, wf_bs b ->
+  exists T, toks_of (w_bit_timing b) ++ (KKeyword, kw_BU) :: rest = (KKeyword, kw_BS) :: T /\
+            parse_bit_timing T = POk b ((KKeyword, kw_BU) :: rest).
+Proof.
+  intros [baud r1 r2] rest (H1 & H2 & H3). cbn [bt_baud bt_reg1 bt_reg2] in *. unfold w_bit_timing. cbn [bt_baud bt_reg1 bt_reg2].
+  destruct ((baud =? 0) && (r1 =? 0) && (r2 =? 0)) eqn:E.
+  - apply andb_true_iff in E. destruct E as [E E3]. apply andb_true_iff in E. destruct E as [E1 E2].
+    apply N.eqb_eq in E1, E2, E3. subst. eexists. split; [tk; reflexivity|]. reflexivity.
+  - eexists. split; [tk; reflexivity|]. unfold parse_bit_timing. rewrite expect_punct_ok. cbn [bind next].
+    change (is_kw KwNode (KNumber, format_uint baud)) with false. cbv iota.
+    rewrite p_uint_other_ok by exact H1. cbn [bind]. rewrite expect_punct_ok. cbn [bind].
+    rewrite p_uint_other_ok by exact H2. cbn [bind]. rewrite expect_punct_ok. cbn [bind].
+    rewrite p_uint_other_ok by exact H3. reflexivity.
+Qed.
+
+Definition wf_header (f : file) : Prop :=
+  expr_string (ver_of f) = true /\ wf_ns (ns_of f) /\ wf_bs (bs_of f) /\ idents_ok (bu_of f).
+
+Definition header_pieces (f : file) : list piece :=
+  w_version (ver_of f) ++ w_new_symbols (ns_of f) ++ w_bit_timing (bs_of f) ++ w_nodes (bu_of f).
+
+Definition fl0 : flags := {| fl_ver := false; fl_ns := false; fl_bu := false |}.
+
+Lemma loop_step : forall fuel fl kwd k T it r' fl',
+  keyword_of kwd = Some k ->
+  parse_section prs hex k fl ((KKeyword, kwd) :: T) T = Some (POk it r', fl') ->
+  parse_loop prs hex (S fuel) fl ((KKeyword, kwd) :: T) =
+  match parse_loop prs hex fuel fl' r' with ROk l => ROk (it :: l) | e => e end.
+Proof. intros fuel fl kwd k T it r' fl' Hk HP. cbn [parse_loop next fst snd]. rewrite Hk, HP. reflexivity. Qed.
+
+Lemma header_loop : forall f its fuel, wf_header f -> Forall wf_item its -> (length its + 4 < fuel)%nat ->
+  parse_loop prs hex fuel fl0 (toks_of (header_pieces f) ++ entries_toks its ++ [eof_tok]) =
+  ROk ([IVersion (ver_of f); INewSymbols (ns_of f); IBitTiming (bs_of f); INodes (bu_of f)] ++ map norm_item its).
+Proof.
+  intros f its fuel (Hv & Hn & Hb & Hu) Hits Hf.
+  do 4 (destruct fuel as [|fuel]; [lia|]).
+  set (R := entries_toks its ++ [eof_tok]).
+  destruct (parse_bit_timing_ok (bs_of f) ((KPunct, [ch_colon]) :: toks_of (flat_map (fun n => [sp; ident n]) (bu_of f)) ++ R)) as [T [HT HP]]; [exact Hb|].
+  assert (Htoks : toks_of (header_pieces f) ++ R =
+    (KKeyword, kw_VERSION) :: (KString, ver_of f) :: (KKeyword, kw_NS) :: (KPunct, [ch_colon]) ::
+    toks_of (flat_map (fun s => [Sp [ch_tab]; word s; nl]) (ns_of f)) ++ (KKeyword, kw_BS) :: T).
+  { unfold tok, str in *. rewrite <- HT. unfold header_pieces, w_version, w_new_symbols, w_nodes. tk. reflexivity. }
+  unfold tok, str in *. rewrite Htoks. clear Htoks.
+  (* VERSION *)
+  erewrite loop_step; [|reflexivity|cbn [parse_section fl_ver fl0]; unfold parse_version; rewrite expect_kind_ok; reflexivity].
+  (* NS_ *)
+  erewrite loop_step; [|reflexivity|
+    cbn [parse_section fl_ns fl_ver fl_bu lift]; unfold parse_new_symbols; rewrite expect_punct_ok; cbn [bind];
+    rewrite ns_loop_ok by exact Hn; reflexivity].
+  (* BS_ *)
+  erewrite loop_step; [|reflexivity|cbn [parse_section lift]; rewrite HP; reflexivity].
+  (* BU_ *)
+  erewrite loop_step; [|reflexivity|
+    cbn [parse_section fl_bu lift]; unfold parse_nodes; rewrite expect_punct_ok; cbn [bind];
+    rewrite idents_loop_ok by (left; apply entries_rest_ok; exact Hits); reflexivity].
+  subst R. rewrite (entries_loop its fuel _ Hits) by lia. reflexivity.
+Qed.
+
+(* ---- assembling ---- *)
+Lemma pick_app : forall A (g : item -> option A) a b, pick g (a ++ b) = pick g a ++ pick g b.
+Proof. intros. unfold pick. apply flat_map_app. Qed.
+
+Lemma pick_map_some : forall A B (g : item -> option A) (h : B -> item) (k : B -> A) l,
+  (forall x, g (h x) = Some (k x)) -> pick g (map h l) = map k l.
+Proof. intros A B g h k l H. induction l as [|x l IH]; [reflexivity|]. cbn [map pick flat_map]. rewrite H. cbn [app]. f_equal. exact IH. Qed.
+
+Lemma pick_map_none : forall A B (g : item -> option A) (h : B -> item) l,
+  (forall x, g (h x) = None) -> pick g (map h l) = [].
+Proof. intros A B g h l H. induction l as [|x l IH]; [reflexivity|]. cbn [map pick flat_map]. rewrite H. exact IH. Qed.
+
+Definition entries_of (f : file) : list item :=
+  map IValueTable (f_vts f) ++ map IMessage (f_msgs f) ++ map IMsgTransmitter (f_txs f) ++ map IEnvVar (f_evs f) ++
+  map IEnvVarData (f_eds f) ++ map ISignalType (f_sts f) ++ map IComment (f_cms f) ++ map IAttribute (f_ads f) ++
+  map IAttrDefault (f_afs f) ++ map IAttrValue (f_avs f) ++ map IValueEncoding (f_ves f) ++
+  map ISignalTypeRef (f_srs f) ++ map ISignalGroup (f_sgs f) ++ map ISigExtValueType (f_svs f) ++ map IExtMux (f_xms f).
+
+(* the document the parser returns for the writer's text: header defaults filled in, attribute
+   literals in the form they are read back *)
+Definition norm_file (f : file) : file :=
+  {| f_version := ver_of f; f_ns := Some (ns_of f); f_bs := Some (bs_of f); f_bu := Some (bu_of f);
+     f_vts := f_vts f; f_msgs := f_msgs f; f_txs := f_txs f; f_evs := f_evs f; f_eds := f_eds f; f_sts := f_sts f;
+     f_cms := f_cms f; f_ads := f_ads f; f_afs := map norm_default (f_afs f); f_avs := map norm_value (f_avs f);
+     f_ves := f_ves f; f_srs := f_srs f; f_sgs := f_sgs f; f_svs := f_svs f; f_xms := f_xms f |}.
+
+Lemma assemble_file : forall f,
+  assemble ([IVersion (ver_of f); INewSymbols (ns_of f); IBitTiming (bs_of f); INodes (bu_of f)] ++ map norm_item (entries_of f))
+  = norm_file f.
+Proof.
+  intros f. unfold entries_of. rewrite !map_app, !map_map. cbn [norm_item].
+  unfold assemble, norm_file. rewrite !pick_app.
+  repeat (first [ rewrite (pick_map_some _ _ _ _ (fun x => x)) by (intros; reflexivity)
+                | rewrite (pick_map_some _ _ _ _ norm_default) by (intros; reflexivity)
+                | rewrite (pick_map_some _ _ _ _ norm_value) by (intros; reflexivity)
+                | rewrite pick_map_none by (intros; reflexivity) ]).
+  cbn [pick flat_map app last_opt rev]. rewrite ?map_id, ?app_nil_r. reflexivity.
+Qed.
+
+
+(* ---- the writer's token stream is header ++ entries ---- *)
+Lemma toks_of_slice : forall A (w : A -> list piece) l, toks_of (w_slice w l) = flat_map (fun x => toks_of (w x)) l.
+Proof.
+  intros A w l. unfold w_slice. destruct l as [|x l]; [reflexivity|].
+  rewrite toks_of_app. change (toks_of [nl]) with (@nil tok). rewrite app_nil_r.
+  generalize (x :: l). clear. induction l as [|y l IH]; [reflexivity|]. cbn [flat_map]. rewrite toks_of_app, IH. reflexivity.
+Qed.
+
+Lemma entries_toks_app : forall a b, entries_toks (a ++ b) = entries_toks a ++ entries_toks b.
+Proof. intros. unfold entries_toks. apply flat_map_app. Qed.
+
+Lemma entries_toks_map : forall A (h : A -> item) l, entries_toks (map h l) = flat_map (fun x => toks_of (w_item (h x))) l.
+Proof. intros A h l. unfold entries_toks. induction l as [|x l IH]; [reflexivity|]. cbn [map flat_map]. rewrite IH. reflexivity. Qed.
+
+Lemma toks_of_file : forall f,
+  toks_of (w_file fmt hex f) = toks_of (header_pieces f) ++ entries_toks (entries_of f).
+Proof.
+  intros f. unfold w_file, header_pieces, entries_of. fold (ver_of f) (ns_of f) (bs_of f) (bu_of f).
+  rewrite !toks_of_app, !toks_of_slice, !entries_toks_app, !entries_toks_map. cbn [w_item].
+  rewrite <- !app_assoc. reflexivity.
+Qed.
+
+Lemma entries_toks_len : forall its, Forall wf_item its -> (length its <= length (entries_toks its))%nat.
+Proof.
+  induction its as [|it its IH]; intros H; [cbn; lia|]. inversion H as [|it' its' Hit Hits]; subst.
+  unfold entries_toks. cbn [flat_map]. destruct (item_head it Hit) as [kwd [T [HT _]]]. rewrite HT.
+  specialize (IH Hits). unfold entries_toks in IH. cbn [app length]. rewrite app_length. cbn [length]. unfold tok, str in *. lia.
+Qed.
+
+Definition wf_file (f : file) : Prop := wf_header f /\ Forall wf_item (entries_of f).
+
+(* parse_write at the token level: the section loop over the printed tokens returns the document *)
+Theorem parse_write_tokens : forall f, wf_file f ->
+  exists items,
+    parse_loop prs hex (S (length (toks_of (w_file fmt hex f) ++ [eof_tok]))) fl0 (toks_of (w_file fmt hex f) ++ [eof_tok]) = ROk items /\
+    assemble items = norm_file f.
+Proof.
+  intros f [Hh He]. eexists. split; [|apply assemble_file].
+  rewrite toks_of_file, <- app_assoc. apply header_loop; [exact Hh|exact He|].
+  rewrite !app_length. pose proof (entries_toks_len _ He).
+  assert (4 <= length (toks_of (header_pieces f)))%nat.
+  { unfold header_pieces. rewrite !toks_of_app, !app_length. unfold w_version, w_new_symbols. tk. cbn [length]. lia. }
+  cbn [length]. unfold tok, str in *. lia.
 Qed.
 
 End File.
